@@ -120,11 +120,27 @@ def run_instance(args):
     def body(ctx):
         u.fn(ctx, **case) if case else u.fn(ctx)
 
+    import signal
+    budget = int(os.environ.get("VERIF_UNIT_BUDGET_S", "900" if opts.get("tier") == "thorough" else "420"))
+
+    class _Budget(BaseException):
+        pass
+
+    def on_alarm(*_a):
+        raise _Budget()
+    old = signal.signal(signal.SIGALRM, on_alarm)
+    signal.alarm(budget)
     try:
         res = core.explore(body, iname, opts=opts)
+    except _Budget:
+        res = core.UnitResult(iname)
+        res.error = ("unsupported", f"unit exceeded its time budget of {budget} s (undecided, not a violation)")
     except Exception:  # noqa: BLE001
         res = core.UnitResult(iname)
         res.error = ("crash", traceback.format_exc(limit=10))
+    finally:
+        signal.alarm(0)
+        signal.signal(signal.SIGALRM, old)
     out = {
         "unit": uname, "instance": iname, "case": {k: _fmt(v) for k, v in (case or {}).items()},
         "paths": res.paths, "wall_s": round(time.time() - t0, 3), "error": res.error,
